@@ -6,6 +6,7 @@ and records everything in meta.json."""
 import json, os, re, shutil, subprocess, sys, time
 prop, var, secs = sys.argv[1], sys.argv[2], sys.argv[3]
 checks = sys.argv[4:] or [prop]
+if checks == ["-"]: checks = []   # only refresh the files and the confirmation record
 sid = "%s-%s" % (prop, var)
 BASE = os.environ.get("MUT_BASE", "/tmp/mut")
 src = "%s/out/%s/%s" % (BASE, prop, var)
@@ -27,7 +28,7 @@ if os.path.exists(v):
                              "how": "tools/verify_mutant.sh in scratch worktree %s/%s (apply, rebuild, make -C tests -k check, demo; then reverted)" % (BASE, prop)}
 notes = open(os.path.join(dst, "notes.md")).read() if os.path.exists(os.path.join(dst, "notes.md")) else ""
 meta.setdefault("needs_to_manifest", "see notes.md")
-r = subprocess.run(["git", "-C", "/repo", "apply", os.path.join(dst, "patch.diff")])
+r = subprocess.run(["git", "-C", "/repo", "apply", os.path.join(dst, "patch.diff")]) if checks else subprocess.run(["true"])
 if r.returncode != 0:
     print("patch does not apply to /repo HEAD"); sys.exit(2)
 det = meta.setdefault("detection", [])
@@ -49,7 +50,7 @@ try:
             entry["violations"] = [{"property": a, "class": c3[:300]} for a, b, c3 in viol[:4]]
             # keep the first minimised replay as an example
             try:
-                shutil.copy(viol[0][1], os.path.join(dst, "caught_by_%s.plan" % c))
+                shutil.copy(viol[0][1], os.path.join(dst, "caught_by_%s%s" % (c, os.path.splitext(viol[0][1])[1] or ".plan")))
             except Exception: pass
         if p.returncode == 2: entry["broken"] = re.findall(r"CHECK-BROKEN.*", out)[:3]
         det[:] = [d for d in det if d.get("check") != c] + [entry]
